@@ -39,7 +39,7 @@ def dispatch(it, st, stack, fr, dest, callee, args, ret_bb):
         v = deref(args[0])
         if isinstance(v, Opaque) and v.kind in ('Data', 'Arc'):
             return Ref(v.inner)
-        if isinstance(v, Buf):
+        if isinstance(v, Buf) or (isinstance(v, Opaque) and v.kind == 'BufList'):
             return args[0]
         raise Unsupported('deref of %r' % (v,))
     if c.endswith(' as Try>::branch'):
@@ -179,6 +179,8 @@ def dispatch(it, st, stack, fr, dest, callee, args, ret_bb):
         raise Unsupported('to_vec of %r' % (v,))
     if c.endswith('as From<') or ' as From<' in c and c.endswith('::from'):
         return args[0]
+    if ' as Into<' in c and c.endswith('::into'):
+        return args[0]
 
     # ---------------------------------------------------------------- actix: request side
     if c.endswith('HttpRequest::headers') or c.endswith('as HttpMessage>::headers'):
@@ -248,6 +250,40 @@ def dispatch(it, st, stack, fr, dest, callee, args, ret_bb):
         if isinstance(pin, Ref):
             pin = Agg('Pin', 'Pin', 0, [pin])
         return push_call(it, stack, fr, dest, body, [pin, args[1]], ret_bb)
+    # a list of byte containers (chunks kept as they arrive) and its concatenation
+    if re.search(r'Vec::<(actix_web::web::|bytes::)?Bytes(Mut)?>::(new|with_capacity)$', c):
+        return Opaque('BufList', items=[])
+    if re.search(r'Vec::<(actix_web::web::|bytes::)?Bytes(Mut)?>::push$', c):
+        lst, x = deref(args[0]), deref(args[1])
+        if not (isinstance(lst, Opaque) and lst.kind == 'BufList' and isinstance(x, Buf)):
+            raise Unsupported('push of %r onto %r' % (x, lst))
+        lst.items = lst.items + [x.copy()]
+        return UNIT
+    if re.search(r'<Vec<(actix_web::web::|bytes::)?Bytes(Mut)?> as Deref(Mut)?>::deref(_mut)?$', c):
+        return args[0]
+    if re.search(r'slice::<impl \[(actix_web::web::|bytes::)?Bytes(Mut)?\]>::concat(::<u8>)?$', c):
+        lst = deref(deref(args[0]))
+        if not (isinstance(lst, Opaque) and lst.kind == 'BufList'):
+            raise Unsupported('concat of %r' % (lst,))
+        out = Buf()
+        for x in lst.items:
+            out.parts = out.parts + list(x.parts)
+            out.len = z3.simplify(out.len + x.len)
+        return out
+    if c.endswith('BytesMut::split'):
+        b = deref(args[0])
+        if not isinstance(b, Buf):
+            raise Unsupported('split of %r' % (b,))
+        out = b.copy()
+        b.parts = []
+        b.len = z3.IntVal(0)
+        return out
+    if c.endswith('BytesMut::clear') or re.search(r'Vec::<u8>::clear$', c):
+        b = deref(args[0])
+        if isinstance(b, Buf):
+            b.parts = []
+            b.len = z3.IntVal(0)
+            return UNIT
     if c.endswith('as StreamExt>::next'):
         return Opaque('NextFuture')
     if c.endswith('as futures::Future>::poll') or c.endswith('as Future>::poll'):
